@@ -203,6 +203,14 @@ def check(repo: Repo) -> Result:
     finalize_rule(repo, res)
     wrapup_rule(repo, res)
     range_helper_rule(repo, res)
+    from rules import c04, c06
+    from rules.common import share
+    from rules.handlers import inventory
+
+    r6 = res.rule("C07-R6", "every registered ufunc (np.add ... np.vecdot are NumPy functions too) maps to a unit rule of the ufunc's homogeneity type", floor=80)
+    share(res, r6, "C04", lambda t: c04.signatures(repo, t), ["C04-R1"], min_keys=80)
+    r7 = res.rule("C07-R7", "array-function handlers with out=: the caller's buffer is labelled with the unit of the numbers NumPy wrote into it", floor=8)
+    share(res, r7, "C06", lambda t: c06.out_rule(repo, t, inventory(repo)), ["C06-R4"], min_keys=8)
     return res
 
 
@@ -405,6 +413,8 @@ def wrapup_rule(repo, res):
     res.check(ok_e, "common-unit-entry", fn.where(ua.differ_if), "np.add / np.maximum / comparisons ... skip the conversion to a common unit for some operands whose units differ: the entry test has a conjunct that can be false although scale or dimension differ", "only comparisons of the two unit objects (is not / !=)", bad_e, rid=r4)
 
 
+UO = "unyt/unit_object.py"
+
 MUTANTS = [
     Mutant("var-linear", AF, "var", "a.units**2", "a.units", ("C07-R1",)),
     Mutant("inv-not-inverted", AF, "linalg_inv", "**kwargs) / a.units", "**kwargs) * a.units", ("C07-R1",)),
@@ -431,4 +441,6 @@ MUTANTS = [
     Mutant("twin-hoist", AF, "var", "return np.var._implementation(np.asarray(a), *args, **kwargs) * a.units**2", "u2 = a.units**2\n    return np.var._implementation(np.asarray(a), *args, **kwargs) * u2", (), benign=True),
     Mutant("common-unit-entry-by-spelling", ARR, "unyt_array.__array_ufunc__", "if u0 is not u1 and u0 != u1:", "if u0 is not u1 and u0.expr != u1.expr:", ("C07-R4",)),
     Mutant("entry-without-identity-shortcut", ARR, "unyt_array.__array_ufunc__", "if u0 is not u1 and u0 != u1:", "if u0 != u1:", (), benign=True),
+    Mutant("vecdot-passthrough", ARR, None, "_ufunc_registry[vecdot] = _multiply_units", "_ufunc_registry[vecdot] = _passthrough_unit", ("C07-R6",)),
+    Mutant("clip-out-not-relabelled", AF, "clip_impl", "        out.units = a.units\n", "        pass\n", ("C07-R7",)),
 ]
